@@ -783,3 +783,330 @@ TASKS.update({
     'batcher._get_next_batch': (t_get_next_batch, {'C10'}),
     'batcher._processing_loop': (t_processing_loop, {'C10'}),
 })
+
+
+# ------------------------------------------------------------------ __call__ / _forget  (C11, C04, C09)
+# Pointwise for the caller's key k.  Ghost accounting of one retention entry:
+#   pend  an unanswered request for k exists (its tuple is queued or in a running batch)
+#   owed  1 while somebody (the owner's finally, or the done-callback it left behind) still has to call
+#         _forget(k) for the current entry, else 0
+#   tmr   1 while an eviction timer (call_later(retention, pop, k)) is outstanding, else 0
+def inv_k(rc_has, rc_fut, pend, owed, tmr, fstate, retention):
+    return z3.And(
+        z3.Or(owed == 0, owed == 1), z3.Or(tmr == 0, tmr == 1), owed + tmr <= 1,
+        rc_has == z3.Or(owed == 1, tmr == 1),
+        z3.Implies(pend, owed == 1),
+        z3.Implies(owed == 1, pend == (z3.Select(fstate, rc_fut) == PENDING)),
+        z3.Implies(tmr == 1, z3.And(retention > 0, z3.Select(fstate, rc_fut) != PENDING)),
+    )
+
+
+def t_call(E):
+    engine(E, {'C11', 'C04', 'C09'})
+    f = method(E, '__call__')
+    E.cur_func = f.qualname
+    Qn = f.qualname
+    E.inline.add(MOD + '.' + CLS + '._forget')
+    st = {}
+    G = ('rc_has', 'rc_fut', 'pend', 'owed', 'tmr')
+
+    def cur():
+        return tuple(E.w[n] for n in G) + (fut_world(E)[0], st['retention'])
+
+    def check_inv(site):
+        E.oblige('%s/inv_k@%s' % (Qn, site), inv_k(*cur()), props={'C11', 'C09'})
+
+    def interfere(site):
+        """Other tasks of the loop run (callers of any key, batch tasks answering futures, eviction timers,
+        cancellation of callers).  Rely, for MY role in the entry of k:"""
+        check_inv(site)
+        old = {n: E.w[n] for n in G}
+        ofs, ofv = fut_world(E)
+        E.w['rc_has'] = E.fresh('rc_has', B)
+        E.w['rc_fut'] = E.fresh('rc_fut', FutS)
+        E.w['pend'] = E.fresh('pend', B)
+        E.w['owed'] = E.fresh('owed', I)
+        E.w['tmr'] = E.fresh('tmr', I)
+        nfs = E.fresh('fut_state', z3.ArraySort(FutS, I))
+        nfv = E.fresh('fut_val', z3.ArraySort(FutS, ValS))
+        E.w['fut_state'], E.w['fut_val'] = nfs, nfv
+        E.assume(inv_k(*cur()))
+        fu = st.get('awaited')
+        if fu is not None:
+            # futures only move pending -> done, and keep their outcome (nobody cancels a shielded future)
+            E.assume(z3.Implies(z3.Select(ofs, fu) != PENDING,
+                                z3.And(z3.Select(nfs, fu) == z3.Select(ofs, fu), z3.Select(nfv, fu) == z3.Select(ofv, fu))))
+            E.assume(z3.Select(nfs, fu) != CANCELLED)
+        if st.get('owner'):
+            # while the owner has not run its exit code, the entry it created stays, its forget is still owed
+            E.assume(z3.And(E.w['rc_has'], E.w['rc_fut'] == st['my_fut'], E.w['owed'] == 1, E.w['tmr'] == 0))
+            E.used('rely: nobody but the owner (or the callback it leaves) forgets the owner\'s entry')
+
+    def install(o, key, arg):
+        Bn = E.builtins
+        ns = Bn[('import', 'asyncio')]
+
+        def key_ok(k, node):
+            kk = k if isinstance(k, VStr) else None
+            E.oblige(Qn + '/frame.retention_cache_is_only_subscripted_with_the_calls_key',
+                     z3.BoolVal(kk is not None) if kk is None else kk.t == st['k'], props={'C11'})
+
+        def getitem(E_, obj, k, node):
+            if obj is st['rc']:
+                key_ok(k, node)
+                if E.branch(E.w['rc_has']):
+                    st['looked_up'] = E.w['rc_fut']
+                    return fut_obj(E.w['rc_fut'])
+                E.throw('KeyError', origin='rc-miss')
+            return None
+        Bn['__getitem__'] = getitem
+
+        def setitem(E_, obj, k, v, node):
+            if obj is st['rc']:
+                key_ok(k, node)
+                if not (isinstance(v, Obj) and v.cls == 'AFuture'):
+                    raise Unsupported('retention entry %r' % (v,), node)
+                E.oblige(Qn + '/create.only_when_no_entry_exists', z3.Not(E.w['rc_has']), props={'C11'},
+                         detail='overwriting an entry would orphan its pending request')
+                E.w['rc_has'] = z3.BoolVal(True)
+                E.w['rc_fut'] = v.fields['fut']
+                E.w['pend'] = z3.BoolVal(True)
+                E.w['owed'] = z3.IntVal(1)
+                st['owner'] = True
+                st['my_fut'] = v.fields['fut']
+                return
+            raise Unsupported('subscript store', node)
+        Bn['__setitem__'] = setitem
+
+        def delitem(E_, obj, k, node):
+            if obj is st['rc']:
+                key_ok(k, node)
+                E.oblige(Qn + '/forget.entry_present_when_deleted', E.w['rc_has'], props={'C11', 'C09'},
+                         detail='del of a missing key raises KeyError into the caller')
+                E.w['rc_has'] = z3.BoolVal(False)
+                st['deleted'] = st.get('deleted', 0) + 1
+                return
+            raise Unsupported('del', node)
+        Bn['__delitem__'] = delitem
+
+        def attr(E_, obj, name, node):
+            if obj is st['rc'] and name == 'pop':
+                def pop_now(E_, a, k):
+                    key_ok(a[0], node)
+                    if E.branch(E.w['rc_has']):
+                        r_ = fut_obj(E.w['rc_fut'])
+                        E.w['rc_has'] = z3.BoolVal(False)
+                        st['deleted'] = st.get('deleted', 0) + 1
+                        return r_
+                    if len(a) > 1:
+                        st['deleted'] = st.get('deleted', 0) + 1     # an eviction attempt all the same
+                        return a[1]
+                    E.oblige(Qn + '/forget.entry_present_when_deleted', z3.BoolVal(False), props={'C11', 'C09'})
+                    E.throw('KeyError')
+                return VStub('dict.pop', pop_now, attrs={'rc': True})
+            if obj is st['rc'] and name == 'get':
+                def get(E_, a, k):
+                    key_ok(a[0], node)
+                    if E.branch(E.w['rc_has']):
+                        st['looked_up'] = E.w['rc_fut']
+                        return fut_obj(E.w['rc_fut'])
+                    return a[1] if len(a) > 1 else NONE
+                return VStub('dict.get', get)
+            if isinstance(obj, VVal) and obj.t.sort() == LoopS:
+                if name == 'create_future':
+                    def cf(E_, a, k):
+                        fo = aio.new_future(E, loop=obj)
+                        fo.fields['ident'] = fo.fields['fut']
+                        st.setdefault('created', []).append(fo.fields['fut'])
+                        return fo
+                    return VStub('loop.create_future', cf)
+                if name == 'call_later':
+                    def cl(E_, a, k):
+                        d, fn_ = a[0], a[1]
+                        ok = isinstance(fn_, VStub) and fn_.name == 'dict.pop' and len(a) in (3, 4) and isinstance(a[2], VStr)
+                        E.oblige(Qn + '/forget.timer_pops_this_key_from_the_retention_cache',
+                                 z3.And(z3.BoolVal(ok), a[2].t == st['k'] if ok else z3.BoolVal(False)), props={'C11'})
+                        E.oblige(Qn + '/forget.timer_delay_is_retention_timeout', _real(d) == st['retention'],
+                                 props={'C11'})
+                        E.w['tmr'] = E.w['tmr'] + 1
+                        st['timers'] = st.get('timers', 0) + 1
+                        return NONE
+                    return VStub('loop.call_later', cl)
+            if obj is st['q'] and name == 'put':
+                def put(E_, a, k):
+                    st.setdefault('enqueued', []).append(a[0])
+                    return aio.mk_awaitable('ready', value=NONE)
+                return VStub('Queue.put', put)
+            if obj is st['q'] and name == 'put_nowait':
+                def putn(E_, a, k):
+                    st.setdefault('enqueued', []).append(a[0])
+                    return NONE
+                return VStub('Queue.put_nowait', putn)
+            if isinstance(obj, Obj) and obj.cls == 'AFuture':
+                fu = obj.fields['fut']
+                if name == 'done':
+                    return VStub('Future.done', lambda E_, a, k: VBool(z3.Select(fut_world(E)[0], fu) != PENDING))
+                if name == 'add_done_callback':
+                    def adc(E_, a, k):
+                        st.setdefault('callbacks', []).append((fu, a[0]))
+                        return NONE
+                    return VStub('Future.add_done_callback', adc)
+            return None
+        Bn['__getattr_ext__'] = attr
+        aio.AWAIT['ready'] = lambda E_, v, node: v.fields['value']
+        ns.attrs['shield'] = VStub('asyncio.shield', lambda E_, a, k: aio.mk_awaitable('shield', inner=a[0]))
+
+        def aw_shield(E_, v, node):
+            """await shield(fut): the future's outcome; or CancelledError when THIS task is cancelled, which
+            leaves the future untouched."""
+            inner = v.fields['inner']
+            if not (isinstance(inner, Obj) and inner.cls == 'AFuture'):
+                raise Unsupported('shield of %r' % (inner,), node)
+            fu = inner.fields['fut']
+            st['awaited'] = fu
+            st.setdefault('awaits', []).append(('shield', fu))
+            interfere('await shield(fut)')
+            stt, val = fut_world(E)
+            s_ = z3.Select(stt, fu)
+            tag = E.choose([('result', s_ == RESULT), ('exception', s_ == EXCEPTION), ('own_cancel', None)], 'await')
+            if tag == 'result':
+                return VVal(z3.Select(val, fu))
+            if tag == 'exception':
+                ev = z3.Select(val, fu)
+                raise PyExc(VExc(cls_of(ev), (), ident=ev, info={'origin': 'future'}))
+            st['cancelled'] = True
+            E.throw('CancelledError', origin='own-cancel')
+        aio.AWAIT['shield'] = aw_shield
+
+        def aw_future(E_, v, node, fr):
+            if isinstance(v, Obj) and v.cls == 'AFuture':
+                # awaiting the shared future directly: cancelling this caller cancels the future (C09)
+                st.setdefault('awaits', []).append(('bare', v.fields['fut']))
+                E.oblige(Qn + '/await.shared_future_is_awaited_through_shield', z3.BoolVal(False), props={'C09'},
+                         detail='a bare await lets a cancelled caller cancel the future shared with other callers')
+                raise PathEnd()
+            return None
+        Bn['__await_ext__'] = aw_future
+        Bn['__str__'] = lambda E_, v: (VStr(z3.Function('str_of_arg', ValS, S)(v.t)) if isinstance(v, VVal) else None)
+
+    def run_callbacks():
+        """done-callbacks the owner left behind run once the future is answered."""
+        for (fu, cb) in st.get('callbacks', []):
+            stt, val = fut_world(E)
+            # the future completes later (answered by its batch): entry still the owner's, forget still owed
+            nfs = E.fresh('fut_state', z3.ArraySort(FutS, I))
+            E.assume(z3.Select(nfs, fu) != PENDING)
+            E.w['fut_state'] = nfs
+            E.w['pend'] = z3.BoolVal(False)
+            check_inv('before done-callback')
+            E.call(cb, [fut_obj(fu)], {})
+            E.w['owed'] = E.w['owed'] - 1 if False else E.w['owed']
+
+    def body():
+        st.clear()
+        mod = E.modules[MOD]
+        o = Obj(mod.classes[CLS])
+        rc = Obj('PyDict')
+        q = Obj('AQueue', dict(maxsize=VInt(0)))
+        loop = E.fresh_val('loop', LoopS)
+        ret = E.fresh_real('retention_timeout')
+        o.fields.update(_retention_cache=rc, _queue=q, _loop=loop, retention_timeout=ret)
+        st.update(rc=rc, q=q, retention=ret.t)
+        arg = E.fresh_val('arg')
+        key_given = E.fresh_bool('key_given')
+        if E.branch(key_given.t):
+            key = E.fresh_str('key')
+            st['k'] = key.t
+            kv = key
+        else:
+            st['k'] = z3.Function('str_of_arg', ValS, S)(arg.t)
+            kv = NONE
+        for n, srt in (('rc_has', B), ('rc_fut', FutS), ('pend', B), ('owed', I), ('tmr', I)):
+            E.w[n] = E.fresh(n, srt)
+        fut_world(E)
+        E.assume(inv_k(*cur()))
+        E.assume(ret.t >= 0)
+        pre = {n: E.w[n] for n in G}
+        install(o, kv, arg)
+        E.cover(Qn + '/requires')
+        E.canary(Qn + '/canary@entry')
+        try:
+            r = E.await_(E.call(f, [o, arg], dict(key=kv)), None)
+            kind = 'return'
+        except PyExc as pe:
+            kind = 'raise'
+            exc = pe.exc
+            r = None
+        E.cover('%s/exit[%s]' % (Qn, kind))
+        # the owner's exit code ran: its forget is either done or handed to a callback
+        owner = bool(st.get('owner'))
+        enq = st.get('enqueued', [])
+        if owner:
+            E.oblige(Qn + '/create.exactly_one_tuple_enqueued', z3.BoolVal(len(enq) == 1), props={'C11', 'C04'})
+            if len(enq) == 1:
+                t = enq[0]
+                ok = isinstance(t, VTuple) and len(t.items) == 3 and isinstance(t.items[0], VStr) and \
+                    t.items[1] is arg and isinstance(t.items[2], Obj) and t.items[2].cls == 'AFuture'
+                E.oblige(Qn + '/create.tuple_is_(key,arg,the_registered_future)',
+                         z3.And(z3.BoolVal(bool(ok)), t.items[0].t == st['k'] if ok else z3.BoolVal(False),
+                                t.items[2].fields['fut'] == st['my_fut'] if ok else z3.BoolVal(False)),
+                         props={'C11', 'C04'})
+            E.oblige(Qn + '/create.only_when_the_key_had_no_entry', z3.Not(pre['rc_has']), props={'C11'})
+            cbs = st.get('callbacks', [])
+            forgot = st.get('deleted', 0) + st.get('timers', 0)
+            E.oblige(Qn + '/exit.forget_now_or_leave_exactly_one_callback',
+                     z3.BoolVal(forgot + len(cbs) == 1), props={'C11', 'C09'})
+            if cbs:
+                E.oblige(Qn + '/exit.callback_only_while_the_request_is_unanswered',
+                         z3.Select(fut_world(E)[0], st['my_fut']) == PENDING, props={'C09'})
+                E.oblige(Qn + '/exit.callback_is_on_the_registered_future', z3.BoolVal(z3.eq(cbs[0][0], st['my_fut'])),
+                         props={'C09'})
+            else:
+                E.w['owed'] = E.w['owed'] - 1
+                E.w['pend'] = z3.BoolVal(False)
+            check_inv('exit')
+            if cbs:
+                st['owner'] = False
+                run_callbacks()
+                forgot2 = st.get('deleted', 0) + st.get('timers', 0)
+                E.oblige(Qn + '/callback.forgets_exactly_once', z3.BoolVal(forgot2 == 1), props={'C09', 'C11'})
+                E.w['owed'] = E.w['owed'] - 1
+                check_inv('after done-callback')
+            if st.get('timers'):
+                E.oblige(Qn + '/forget.timer_only_when_retention_positive', st['retention'] > 0, props={'C11'})
+            if st.get('deleted'):
+                E.oblige(Qn + '/forget.immediate_only_when_retention_is_zero', z3.Not(st['retention'] > 0), props={'C11'})
+        else:
+            E.oblige(Qn + '/share.nothing_enqueued_when_the_key_has_an_entry', z3.BoolVal(len(enq) == 0),
+                     props={'C11'})
+            E.oblige(Qn + '/share.no_eviction_by_a_sharer',
+                     z3.BoolVal(not st.get('deleted') and not st.get('timers') and not st.get('callbacks')),
+                     props={'C11', 'C09'})
+        aw = st.get('awaits', [])
+        E.oblige(Qn + '/await.exactly_one_shielded_await_of_the_keys_future',
+                 z3.BoolVal(len(aw) == 1 and aw[0][0] == 'shield'), props={'C09', 'C04'})
+        if len(aw) == 1:
+            exp = st['my_fut'] if owner else st.get('looked_up')
+            E.oblige(Qn + '/await.awaits_the_future_registered_under_its_key',
+                     z3.BoolVal(exp is not None and z3.eq(aw[0][1], exp)), props={'C04', 'C11'})
+        stt, val = fut_world(E)
+        fu = st.get('awaited')
+        if kind == 'return' and fu is not None:
+            E.oblige(Qn + '/ensures.returns_the_value_of_its_keys_future',
+                     z3.And(z3.BoolVal(isinstance(r, VVal)), z3.Select(stt, fu) == RESULT,
+                            r.t == z3.Select(val, fu) if isinstance(r, VVal) else z3.BoolVal(False)),
+                     props={'C04', 'C11'})
+        if kind == 'raise':
+            if exc.info.get('origin') == 'future':
+                E.oblige(Qn + '/signals.raises_the_exception_of_its_keys_future',
+                         z3.And(z3.Select(stt, fu) == EXCEPTION, exc.ident == z3.Select(val, fu)), props={'C04', 'C11'})
+            else:
+                E.oblige(Qn + '/signals.otherwise_only_the_callers_own_cancellation',
+                         z3.BoolVal(exc.info.get('origin') == 'own-cancel'), props={'C04', 'C09'},
+                         detail='origin: %s' % exc.info.get('origin'))
+    E.run_paths(body)
+
+
+TASKS.update({
+    'batcher.__call__': (t_call, {'C11', 'C04', 'C09'}),
+})
